@@ -11,7 +11,7 @@ time / flags), the PDU type of the call, non-repeaters 0 and the requested max-r
 the requested OIDs in order each bound to NULL."""
 import json, random, asyncio
 from vlib import env, tlc, trace, scripts, rawdrv, agent as ag, sesscheck, apidrv, walks
-from vlib.report import Check, confirm_by_replay
+from vlib.report import Check, confirm_by_replay, timing_event
 from vlib.env import ToolError, SEED
 
 PAIRS = [("v2c", "v3-md5-des"), ("v1", "v3-sha1-aes"), ("v3-noauth", "v2c"), ("v3-md5", "v1"), ("v3-md5-aes", "v3-sha1-des"), ("v2c", "v2c"),
@@ -272,7 +272,7 @@ def run(tier):
         prior = "none" if not prev else ("%s:%s" % (prev[-1]["ev"], prev[-1].get("exc") or "ok"))
         sig = dict(kind=info["kind"], ev=ev["ev"], op=ev.get("op"), got=ev.get("exc") or "ok", prior=prior)
         chk.violation(sig, "%s: %s %s after %s: %s wire=%s" % (json.dumps(info)[:160], ev["ev"], ev.get("op"), prior, ev.get("exc") or "", bytes(ev.get("wire", []))[:40].hex()),
-                      dict(info=info, event_index=idx - a), confirm=confirm_by_replay(replay, dict(info=info)) if info["kind"] == "fetch" else None)
+                      dict(info=info, event_index=idx - a), confirm=(confirm_by_replay(replay, dict(info=info)) if (info["kind"] == "fetch" and timing_event(ev)) else None))
     chk.sample(dict(kind="history", pair=runs[10][2]["pair"], history=runs[10][2]["history"]))
     return chk.finish()
 
